@@ -38,7 +38,7 @@ REQUIRED = ['check:transform:' + t for t in TRANSFORMS] + \
             'check:descriptors', 'check:sqrt_keeps_rank_evaluation']
 REACH = ['rank_transform', 'sqrt_transform', 'positive_transform', 'minmax_transform',
          'geotopological_transform', 'geodesic_transform', 'transform', 'compare']
-FAIL_KEYS = ['transform', 'measure', 'map', 'small_scale', 'has_zero_edge']
+FAIL_KEYS = ['transform', 'measure', 'map', 'small_scale', 'has_zero_edge', 'int_storage']
 TIME_BUDGET = {'quick': 60, 'thorough': 600}
 
 
@@ -159,8 +159,12 @@ def run_transform(ctx, tname):
             return
     sig = dict(transform=tname, values=meta['kind'], nan=nan, n_rdm=meta['n_rdm'],
                small_scale=meta['kind'] == 'small', meas=str(meta['meas']), **{k: params[k] for k in params})
-    rd = build(v, meta)
-    wit = lambda **k: dict(transform=tname, v=v, params=params, measure=meta['meas'], **k)  # noqa: E731
+    # whole-number dissimilarities (ordinal judgements, counts) are often stored with an integer dtype: the transform
+    # of the same numbers must not depend on how they are stored
+    int_storage = bool(not nan and np.all(v == np.round(v)) and np.all(np.abs(v) < 2 ** 40) and rng.integers(2))
+    sig['int_storage'] = int_storage
+    rd = build(v.astype(np.int64) if int_storage else v, meta)
+    wit = lambda **k: dict(transform=tname, v=v, params=params, measure=meta['meas'], int_storage=int_storage, **k)  # noqa: E731
     if tname == 'rank':
         call = lambda: T.rank_transform(rd, **params)  # noqa: E731
         want = np.array([scipy.stats.rankdata(r, method=params['method'], nan_policy='omit') for r in v])
